@@ -88,6 +88,7 @@ type RunResult struct {
 	SymInputs  int            // symbolic inputs created on this path
 	Unknown    map[string]int // label -> inconclusive count
 	Funcs      map[string]int // functions entered -> instr count
+	Blocks     map[*ssa.Function][]bool // basic blocks entered (code under test only)
 	Steps      int
 	Forks      map[string]int
 	SamplePC   []string
